@@ -51,11 +51,23 @@ def alreadyDefined (depth : Nat) (env : List Frame) (k : String) : Bool :=
 def nameOf (names : List (Nat × String)) (id : Nat) : Option String :=
   (names.find? (fun p => p.1 == id)).map (·.2)
 
-/-- `lambda_def.name = Some(ident)` on the heap cell -/
+/-- `if lambda_def.name.is_none() { lambda_def.name = Some(ident) }` on the heap cell: a
+    function is named after the first variable it is bound to -/
 def setNameIfLambda (s : ES) (ident : String) (v : Value) : ES :=
   match v with
-  | .lambda id _ _ _ => { s with names := (id, ident) :: s.names }
+  | .lambda id _ _ _ =>
+    match nameOf s.names id with
+    | none => { s with names := (id, ident) :: s.names }
+    | some _ => s
   | _ => s
+
+/-- `lambda_ptr.index() >= first_new_cell`: an assignment names only a function that its own
+    right-hand side created (`first` = the next cell index before the right-hand side was
+    evaluated); any other value is passed to `setNameIfLambda` as a non-function -/
+def createdSince (first : Nat) (v : Value) : Value :=
+  match v with
+  | .lambda id _ _ _ => if first ≤ id then v else .null
+  | _ => v
 
 /-! ### free variables (`collect_free_variables`) -/
 
@@ -323,7 +335,7 @@ def eval (ops : NumOps) : Nat → Nat → Expr → ES → R Value
            -- the right-hand side may itself have bound `n`: checked again before inserting
            if alreadyDefined depth s1.env n then (.err .alreadyDefined, s1)
            else
-             let s2 := setNameIfLambda s1 n val
+             let s2 := setNameIfLambda s1 n (createdSince s.nextId val)
              (.ok val, { s2 with env := envInsert s2.env n val })
          | r => r)
     | .output inner => eval ops fuel depth inner s
@@ -488,7 +500,7 @@ def evalDoStmt (ops : NumOps) : Nat → Nat → Expr → ES → R Value
       else
         (match eval ops fuel depth v s with
          | (.ok val, s1) =>
-           let s2 := setNameIfLambda s1 n val
+           let s2 := setNameIfLambda s1 n (createdSince s.nextId val)
            (.ok val, { s2 with env := envInsert s2.env n val })
          | r => r)
     | other => eval ops fuel depth other s
